@@ -85,7 +85,8 @@ def matrix_inverse_root(
 
     # check if matrix is scalar
     if torch.numel(A) == 1:
-        return (A + epsilon) ** torch.as_tensor(-1.0 / root)
+        # NOTE: As in the eigendecomposition path, a (slightly) negative entry is shifted to zero before adding epsilon.
+        return (A.clamp(min=0.0) + epsilon) ** torch.as_tensor(-1.0 / root)
 
     # check matrix shape
     if len(A.shape) != 2:
